@@ -820,6 +820,15 @@ where
             // When parser returns Ok(None) we should return the original arguments so if there's
             // anything left unconsumed - this won't be lost.
 
+            // help, version or completion output of a subcommand is a result to deliver, not
+            // a failure to recover from
+            if let Message::ParseFailure(
+                crate::ParseFailure::Stdout(..) | crate::ParseFailure::Completion(_),
+            ) = err
+            {
+                return Err(Error(err));
+            }
+
             let missing = matches!(err, Message::Missing(_) | Message::NoEnv(_));
 
             // a later round of a repeating parser that took nothing from the command line and
